@@ -177,7 +177,9 @@ def _many_task(args):
     try:
         h = _FAM.harness(task)
         ex = _FAM.exec_for(h)
-        recs, left, stats = _explore_subtree(h, ex, [[]], max_paths, time.time() + 10 ** 8)
+        t0 = time.time()
+        recs, left, stats = _explore_subtree(h, ex, [[]], max_paths, time.time() + float(os.environ.get("VERIF_TASK_BUDGET", 10 ** 8)))
+        stats["task_ms"] = int((time.time() - t0) * 1000)
         stats["solver_time_ms"] += int(ex.glob.solver_time * 1000)
         ex.glob.solver_time = 0.0
         return idx, recs, len(left), dict(stats), None
